@@ -47,8 +47,9 @@ Theorem C17_copy_policy : evolvent_copy_policy =
 Proof. reflexivity. Qed.
 Print Assumptions C17_copy_policy.
 Theorem C17_write_sets : evolvent_write_sets =
-  [("GetImage", ["yValues"]); ("GetInverseImage", ["yValues"]); ("GetPreimages", ["yValues"])] /\ evolvent_module_state = [].
-Proof. split; reflexivity. Qed.
+  [("GetImage", ["yValues"]); ("GetInverseImage", ["yValues"]); ("GetPreimages", ["yValues"])] /\ evolvent_module_state = [] /\
+  evolvent_external_writes = [].      (* nothing outside evolvent.py reconfigures or writes into an Evolvent object (e.g. the solver's) *)
+Proof. repeat split; reflexivity. Qed.
 Print Assumptions C17_write_sets.
 
 Example C17_nonvacuous : let o := gen_new [0; 0]%Q [1; 1]%Q 2 3 in wf o /\ wf (snd (gen_image o (1 # 3)%Q)) /\
